@@ -129,6 +129,7 @@ def main():
     funcs = []
     samples = []
     bounded_checks = []
+    pending_hits = []
     replay_dir = os.path.join(HERE, 'replays')
     os.makedirs(replay_dir, exist_ok=True)
     n_search = {'quick': 150, 'thorough': 2000}[args.tier]
@@ -190,9 +191,21 @@ def main():
                 continue
             violations.append(make_violation(prop, t, o['name'], o, hit, found_by, replay_dir))
         if not bad and search_hit is not None:
-            # the proof went through but the oracle comparison disagrees: encoding fault
-            fault.append('all obligations of %s discharged but native search found a mismatch: %s'
-                         % (t, json.dumps(search_hit)[:600]))
+            pending_hits.append((t, search_hit))
+
+    # native mismatches in functions whose own obligations all discharged: with
+    # modular proofs this is what a broken *callee* looks like from its callers
+    # (they are proved against the callee's contract, executed against its body).
+    # If some function failed its obligations the violation is reported there;
+    # otherwise the concrete failing input is itself the violation (and shows
+    # that the proof missed it: recorded as proof_missed in evidence).
+    proof_missed = []
+    if pending_hits and not violations:
+        for t, hit in pending_hits:
+            proof_missed.append(t)
+            violations.append(make_violation(prop, t, 'native oracle comparison of %s (all its obligations '
+                                             'discharged: proof missed this input)' % t, None, hit,
+                                             'bounded-search', replay_dir))
 
     # known findings: replay each witness
     for k in known:
@@ -223,6 +236,7 @@ def main():
         'by_backend': {'z3-%s' % z3_version(): {'obligations': n_obl, 'solver_seconds': round(solver_s, 3)}},
         'bounded_checks': bounded_checks,
         'degraded': degraded,
+        'proof_missed': proof_missed,
         'undecided': undecided,
         'known_findings_reported': known_reported,
         'canaries_refuted': len(canaries) - sum(1 for f in fault if f.startswith('canary')),
